@@ -39,7 +39,7 @@ CLAIMED["C05"] = ("DESIGN.md §5 C05", _MB + "; conservation oracle on content t
 CLAIMED["C13"] = ("DESIGN.md §5 C13", _MB + "; .mh_sequences file compared with the in-memory flags after every step",
     "External deliveries (symbolic count, unseen bits, key gap, mtime advanced or not, observer idling) are reconciled by the real check_new_msgs_and_flags: new messages at the end with fresh larger UIDs, \\Recent and exactly the agent's flags, old UIDs/flags untouched, EXISTS announced. After every mutating operation the folder's .mh_sequences mentions only existing keys and equals the sessions' flags (Seen exactly when not in unseen).", _MBN)
 CLAIMED["C15"] = ("DESIGN.md §5 C15", "CrossHair differential execution of the four real interpreters of the set language against one reference denotation, symbolic endpoints",
-    "sequence_set_to_list, Mailbox.msg_set_to_msg_seq_set, the SEARCH matchers _match_message_set/_match_uid and Mailbox.copy's own expansion are run on the same symbolic set (7 shapes, endpoints 0..N+1 or 0..max UID+2, '*') and compared on BAD-vs-set and on membership of a symbolic probe message: a:b == b:a, '*' is the last message, n:* contains the last message, UID sets skip missing UIDs, out-of-range numbers are BAD (SEARCH may match nothing).", "Trusted: CrossHair+z3, FakeMH, reference denotation (asv/refmodel/seqset.py). N in {0,3} quick, 0..5 thorough; sets of at most 3 elements.")
+    "sequence_set_to_list, Mailbox.msg_set_to_msg_seq_set, the SEARCH matchers _match_message_set/_match_uid and Mailbox.copy's own expansion are run on the same symbolic set (7 shapes, endpoints 0..N+1 or 0..max UID+2, '*') and compared on BAD-vs-set and on membership of a symbolic probe message: a:b == b:a, '*' is the last message, n:* contains the last message, UID sets skip missing UIDs, out-of-range numbers are BAD (SEARCH may match nothing).", "Trusted: CrossHair+z3, FakeMH, reference denotation (asv/refmodel/seqset.py). N in {0,3} quick, 0..4 thorough; sets of at most 3 elements; SEARCH through Mailbox.search with UIDNEXT 0 or 2 above the last UID + 1.")
 CLAIMED["C11"] = ("DESIGN.md §5 C11", "CrossHair symbolic execution with the crash point (index of the durable effect after which the process dies) as a symbolic integer; real sqlite transactions; restart through the real start-up code",
     "One mutating operation (append, expunge, store, copy, pack, delivery resync, create, delete, rename, subscribe, first start-up with schema migration) runs on the real code over a fake MH store and real in-memory sqlite whose every durable effect is numbered; the process dies after effect c (symbolic), the open transaction is rolled back, all objects are dropped, a new server starts through apply_migrations/_restore_from_db/Mailbox.new and must succeed; the ledger of revealed (UIDVALIDITY, UID)->content pairs, announced UIDNEXT and acknowledged results is checked.", "Trusted: CrossHair+z3, FakeMH, sqlite3 semantics. One file write / one commit atomic; the interrupted operation starts in a later clock second than the last completed one. One operation per crash; c <= 14 quick / 30 thorough.")
 CLAIMED["C12"] = ("DESIGN.md §5 C12", "CrossHair symbolic execution of shutdown -> commit_to_db -> new server -> _restore_from_db/check_new_msgs_and_flags through the real SQL on in-memory sqlite",
@@ -61,7 +61,7 @@ CLAIMED["C17"] = ("DESIGN.md §5 C17", "direct z3 regex-equivalence of the regex
 CLAIMED["C19"] = ("DESIGN.md §5 C19", "direct z3 queries on the literal-detection regexes + CrossHair-driven execution of the real read loop / framing / relay on contract-level fake streams against a reference tokenizer",
     "The three RE_LITERAL_STRING_START copies are compared by z3 with RFC 7888 for lines of any length. IMAPClient.start runs on streams built from a command of 6 shapes (plain, (non-)synchronising literal, literal followed by text, two literals, long line) with announced sizes 0..L+2 around a patched MAX_INPUT_SIZE, followed by two more commands: the messages handed to the user process, the continuation requests and the BADs must equal the reference tokenizer's. message()->IMAPClientProxy.run round-trips arbitrary payloads; msgs_to_client relays CRLF-free runs longer than the reader limit unmodified.", "Trusted: z3, CrossHair, FakeReader/FakeWriter implementing the documented asyncio stream contract (segmentation discharged by the contract). L=24 quick / 24,40 thorough.")
 CLAIMED["C20"] = ("DESIGN.md §5 C20", "CrossHair-driven execution of the real POP3 handler with solver-enumerated command sequences and an IMAP-side operation at a symbolic position; dot_stuff on symbolic byte strings",
-    "Sessions of 3 POP3 commands (STAT/LIST/UIDL/RETR/DELE/RSET/TOP/NOOP with message numbers -1..4) on a 3-message snapshot with an IMAP expunge or delivery inserted at a symbolic position, ending in QUIT, RSET+QUIT or a dropped connection: listed numbers/sizes/UIDLs never change, UIDL == IMAP UID, RETR delivers exactly the announced octets after un-stuffing, QUIT removes exactly the marked messages. dot_stuff followed by the terminator is read back by an independent RFC 1939 reader for all byte strings <= 4 over {'.','x',CR,LF}.", "Trusted: CrossHair+z3, FakeMH with stdlib-parsed messages. 3 commands quick / 4 thorough.")
+    "Four harnesses on a 3-message snapshot (listing commands before/after an IMAP-side expunge or delivery; RETR/TOP framing; DELE/RSET/DELE then QUIT or a dropped connection with the IMAP-side operation before or after the DELEs; proxy disconnect), message numbers -1..4 symbolic: listed numbers/sizes/UIDLs never change, LIST/UIDL rows after DELE are exactly the unmarked messages under their own numbers, UIDL == IMAP UID, RETR delivers exactly the announced octets after un-stuffing, QUIT removes exactly the marked messages. dot_stuff followed by the terminator is read back by an independent RFC 1939 reader for all byte strings <= 4 over {'.','x',CR,LF}.", "Trusted: CrossHair+z3, FakeMH with stdlib-parsed messages. IMAP-side expunge subsets {none, first, last two} quick / all thorough; dot_stuff strings <= 4 quick / <= 5 thorough.")
 
 NOT_YET = {}
 
